@@ -171,8 +171,8 @@ func VerifC06TCP() { verifC06TCP(12, 15, 24) }
 
 // VerifC06TCPLong is the thorough variant.
 //
-//verif:harness name=H06d-tcp-long tier=thorough bounds="as H06d-tcp with 12..19 bytes" reach=decoded,rejected maxpaths=2000000 fanout=70
-func VerifC06TCPLong() { verifC06TCP(12, 19, 28) }
+//verif:harness name=H06d-tcp-long tier=thorough bounds="as H06d-tcp with 12..17 bytes" reach=decoded,rejected maxpaths=2000000 fanout=70
+func VerifC06TCPLong() { verifC06TCP(12, 17, 28) }
 
 func verifC06TCP(lo, hi, nstale int) {
 	verifPoolMode(1)
